@@ -554,6 +554,10 @@ class Evaluator:
                 if inner.get("k") == "int" and inner.get("bits") == 8:
                     return ("ref", ("val", mk_int(b[0], inner["s"]), ()), False)
             if to.get("k") == "static":
+                if to.get("path") and not to.get("mutable"):
+                    r = self.eval_const_item(to["path"])        # an immutable static (lookup table): its initialiser's value
+                    if r is not None:
+                        return ("ref", ("val", r, ()), False)
                 return ("ref", ("val", ("sym", "static:" + to["name"], ty["s"]), ()), False)
             return ("ref", ("val", ("sym", "constalloc:%s@%s" % (ty["s"], id(c)), ty["s"]), ()), False)
         if k == "indirect":
@@ -698,7 +702,18 @@ class Evaluator:
         if k == "use":
             return self.operand(st, act, r["x"])
         if k == "ref":
-            return ("ref", self.place_target(st, act.fid, r["place"]), r["mut"])
+            tgt = self.place_target(st, act.fid, r["place"])
+            if any(e[0] == "index" and e[1][0] != "int" for e in tgt[-1]):
+                # a reference into a constant table indexed by an enum discriminant: decide the index now (NeedFork), the
+                # reference itself is only dereferenced later, outside any statement
+                try:
+                    self.load(st, tgt)
+                except (Unsupported, Infeasible):
+                    pass
+                ci_ = [self.concrete_index(st, e[1]) if e[0] == "index" else None for e in tgt[-1]]
+                if any(c is not None for c in ci_):
+                    tgt = tgt[:-1] + (tuple(("index", c) if c is not None else e for e, c in zip(tgt[-1], ci_)),)
+            return ("ref", tgt, r["mut"])
         if k == "rawptr":
             return ("ref", self.place_target(st, act.fid, r["place"]), True)
         if k == "cast":
@@ -1555,21 +1570,35 @@ class Evaluator:
                 out.extend(self.finish_call(s3, s3.stack[-1], ci.dest, ci.target, val, ci.w))
         return out
 
+    def assume_all(self, s2, assumptions, w):
+        """states in which every (term, value) holds; a negated conjunction is split into its cases
+        (first conjunct false | first true and second false | ..) so that every decision stays a literal"""
+        if not assumptions:
+            return [s2]
+        (t, v), rest = assumptions[0], assumptions[1:]
+        if t[0] == "and" and v == 0 and len(t[1]) > 1:
+            out = []
+            for i in range(len(t[1])):
+                s3 = s2.fork()
+                out.extend(self.assume_all(s3, [(c, 1) for c in t[1][:i]] + [(t[1][i], 0)] + rest, w))
+            return out
+        if t[0] == "and" and v == 1:
+            return self.assume_all(s2, [(c, 1) for c in t[1]] + rest, w)
+        if not self.assume(s2, t, v):
+            return []
+        s2.decisions = s2.decisions + ((t, v, w),)
+        return self.assume_all(s2, rest, w)
+
     def apply_results(self, ci, res):
         """res: term | ('fork', [(assumptions, term)]) | ('paths', list) | ('panic', why)"""
         st, act = ci.st, ci.act
         if isinstance(res, tuple) and res and res[0] == "fork":
             out = []
+            branches = []
             for assumptions, val in res[1]:
-                s2 = st.fork()
-                ok = True
-                for (t, v) in assumptions:
-                    if not self.assume(s2, t, v):
-                        ok = False
-                        break
-                    s2.decisions = s2.decisions + ((t, v, ci.w),)
-                if not ok:
-                    continue
+                for s2 in self.assume_all(st.fork(), list(assumptions), ci.w):
+                    branches.append((s2, val))
+            for s2, val in branches:
                 a2 = s2.stack[-1]
                 if callable(val):
                     # a branch value that has side effects (a closure run only on this branch)
